@@ -145,6 +145,10 @@ def get_by_path(val, path):
     return cur
 
 
+ATOMIC_READS = ("load", "swap", "compare_exchange", "compare_exchange_weak", "fetch_add", "fetch_sub", "fetch_update", "fetch_and", "fetch_or",
+                "fetch_max", "fetch_min")     # every atomic operation that hands the current value back
+
+
 def verifier_types(facts):
     """Crate types whose destructor (or a crate-local helper it calls) reads an atomic counter: the call-count verifier(s).
     Found by role, not by name."""
@@ -156,7 +160,7 @@ def verifier_types(facts):
             return False
         seen.add(fn)
         for name, foreign, local, t in facts.callees_of(b):
-            if "atomic::Atomic" in name and name.split("::")[-1] == "load":
+            if "atomic::Atomic" in name and name.split("::")[-1] in ATOMIC_READS:
                 return True
             if local and loads(name, depth + 1, seen):
                 return True
